@@ -1195,6 +1195,9 @@ def _put_slice_stmtlike_old(
         if field == 'orelse' and len_body == 1 and (f := body[0].f).is_elif():
             _elif_to_else_if(f, fst.FST.get_option('docstr', options))
 
+            if put_fst:  # the former elif is now an `if` indented by root.indent in the new `else:` block, which may not be what the elif's own body was indented by
+                block_indent = header_indent + root.indent
+
         if fpre:
             block_loc = fstloc(*fpre.bloc[2:], *(fpost.bloc[:2] if fpost else fpre._next_bound_step()))
             is_last_child = not fpost and not fpre.next()
